@@ -835,6 +835,20 @@ func (s *ShapeIndex) applyUpdatesInternal() {
 	// edge as the final index memory size. If this causes issues, add in
 	// batched updating to limit the amount of items per batch to a
 	// configurable memory footprint overhead.
+	if !s.isFirstUpdate() {
+		if s.pendingAdditionsPos >= int32(len(s.shapes)) && len(s.pendingRemovals) == 0 {
+			// Nothing is pending (e.g. another caller applied the updates first).
+			return
+		}
+		// Merging new edges into the cells of an index that was already built
+		// is not implemented (see updateEdges, absorbIndexCell, removeShapeInternal),
+		// so discard the existing cells and index all shapes again.
+		s.cellMap = make(map[CellID]*ShapeIndexCell)
+		s.cells = nil
+		s.pendingAdditionsPos = 0
+		s.pendingRemovals = s.pendingRemovals[:0]
+	}
+
 	t := newTracker()
 
 	// allEdges maps a Face to a collection of faceEdges.
